@@ -1,3 +1,662 @@
-/- Model for C01: not written yet -/
+/-
+C01 — incremental (partial) resync converges to the configuration of a full sync.  Core-only.
+
+M-Tracker  : pkg/converters/tracker/tracker.go as an undirected edge list over typed nodes
+             (`track`, `queryLinks … remove`, `clearLinks`) plus a mirror of the Go recursion
+             (`goUpdate`, `goRemoveRef` over directed half edges, with fuel) used for the
+             termination argument and cross-checked against the edge-list model on every run.
+M-Sync     : the TRACKING CALLS and the control flow they depend on of
+             pkg/converters/ingress/ingress.go (`syncFull`, `syncPartial`, `trackAddedIngress`,
+             `syncIngressHTTP`, `addDefaultHostBackend`, `addHost`, `addBackendWithClass`, `addTLS`,
+             `readIngressClass`, `addEndpoints` drain-support pod tracking) and of the watchers
+             (pkg/controller/reconciler/watchers.go) that build the batch.
+             Items (hosts, backends) carry a *trace*: the ordered list of touches, each with the
+             declaring ingress object and the objects read for it.  "An item's content is a
+             function of its trace" is the decomposition abstraction (modelling assumption,
+             validated end-to-end by the long-lived-vs-fresh oracle of the harness).
+Not modelled (differentially tested only, the driver abstains): TCP-service ingresses, annotations
+that track (auth-*, oauth, ssl-passthrough, redirect-to, path-type, header match, cert-signer),
+cross-namespace names, `file://` secrets, the default-backend option, Gateway API.
+-/
 namespace HapVerif.C01
+
+/-! ## M-Tracker -/
+section Tracker
+variable {α : Type} [DecidableEq α]
+
+/-- the tracker: undirected edges; `(a, b)` stands for `a ↔ b` -/
+abbrev Tr (α : Type) := List (α × α)
+
+/-- `TrackRefs(left, right)` -/
+def track (a b : α) (t : Tr α) : Tr α := (a, b) :: t
+
+/-- `ClearLinks()` -/
+def clearLinks : Tr α := []
+
+def touches (S : List α) (e : α × α) : Bool := decide (e.1 ∈ S) || decide (e.2 ∈ S)
+
+/-- both ends of every edge -/
+def ends (t : Tr α) : List α := t.flatMap fun e => [e.1, e.2]
+
+/-- Sweep: move every edge that touches the frontier out of the edge list and add its ends to
+the frontier, until no edge touches the frontier.  Each round removes at least one edge, so
+`t.length + 1` rounds always suffice (`sweep_closed`). Returns (remaining edges, frontier). -/
+def sweep : Nat → Tr α → List α → Tr α × List α
+  | 0, t, fr => (t, fr)
+  | f + 1, t, fr =>
+    match t.filter (touches fr) with
+    | [] => (t, fr)
+    | h :: hs => sweep f (t.filter fun e => !touches fr e) (fr ++ ends (h :: hs))
+
+def dedup : List α → List α
+  | [] => []
+  | a :: l => if a ∈ dedup l then dedup l else a :: dedup l
+
+/-- everything connected to a seed (seeds included) -/
+def reach (t : Tr α) (seeds : List α) : List α := (sweep (t.length + 1) t seeds).2
+
+/-- edges left after the components of the seeds are removed -/
+def rest (t : Tr α) (seeds : List α) : Tr α := (sweep (t.length + 1) t seeds).1
+
+/-- `QueryLinks(seeds, _)` output: every node reachable from a seed in ≥ 1 step, i.e. the nodes
+(with at least one edge) of the connected components of the seeds -/
+def queryOut (t : Tr α) (seeds : List α) : List α := dedup ((ends t).filter (· ∈ reach t seeds))
+
+/-- `QueryLinks(seeds, removeMatches)` -/
+def queryLinks (t : Tr α) (seeds : List α) (remove : Bool) : List α × Tr α :=
+  (queryOut t seeds, if remove then rest t seeds else t)
+
+/-! ### mirror of the Go data structure and recursion
+
+`tracking[ctx][name]` is a set of refs: directed half edges `(key, ref)`; `TrackRefs` adds both
+directions.  Fuel bounds the recursion DEPTH (it is passed unchanged to siblings). -/
+
+abbrev Half (α : Type) := List (α × α)
+
+def goTrack (a b : α) (d : Half α) : Half α := (a, b) :: (b, a) :: d
+
+def refsOf (d : Half α) (k : α) : List α := (d.filter (·.1 = k)).map (·.2)
+
+/-- `updateOutput(ctx, namelist)` of QueryLinks; `none` = out of fuel -/
+def goUpdate : Nat → List α → Half α → List α → Option (List α)
+  | 0, _, _, _ => none
+  | f + 1, names, d, out =>
+    names.foldlM (fun out name =>
+      (refsOf d name).foldlM (fun out ref =>
+        if ref ∈ out then some out else goUpdate f [ref] d (ref :: out)) out) out
+
+/-- `removeRef(ctx, name)`; `none` = out of fuel -/
+def goRemoveRef : Nat → α → Half α → Option (Half α)
+  | 0, _, _ => none
+  | f + 1, name, d =>
+    (refsOf d name).foldlM (fun d ref => goRemoveRef f ref d) (d.filter (·.1 ≠ name))
+
+/-- `QueryLinks` as the Go code runs it -/
+def goQuery (d : Half α) (seeds : List α) (remove : Bool) : Option (List α × Half α) := do
+  let out ← goUpdate (d.length + 1) seeds d []
+  if remove then
+    let d' ← out.foldlM (fun d n => goRemoveRef (d.length + 1) n d) d
+    pure (out, d')
+  else pure (out, d)
+
+end Tracker
+
+/-! ## the cluster -/
+
+structure PathDecl where
+  path : String
+  ptype : String        -- "Exact" | "Prefix" | anything else (ImplementationSpecific / nil)
+  svc : String
+  port : String
+deriving DecidableEq, Repr, Inhabited
+
+structure Rule where
+  host : String
+  paths : List PathDecl
+deriving DecidableEq, Repr, Inhabited
+
+structure TlsDecl where
+  hosts : List String
+  secret : String
+deriving DecidableEq, Repr, Inhabited
+
+structure Ingress where
+  ns : String
+  name : String
+  created : Nat
+  classAnn : Option String := none      -- kubernetes.io/ingress.class
+  className : Option String := none     -- spec.ingressClassName
+  ann : List (String × String) := []
+  rules : List Rule := []
+  tls : List TlsDecl := []
+  defBackend : Option (String × String) := none
+deriving DecidableEq, Repr, Inhabited
+
+def Ingress.key (i : Ingress) : String := i.ns ++ "/" ++ i.name
+
+structure SvcPort where
+  name : String
+  port : Nat
+  target : String        -- TargetPort.String()
+deriving DecidableEq, Repr, Inhabited
+
+structure Service where
+  key : String
+  ports : List SvcPort
+  ann : List (String × String) := []
+deriving DecidableEq, Repr, Inhabited
+
+structure Endpoints where
+  key : String
+  ready : List (String × String)       -- (ip, pod)
+  notReady : List (String × String)
+  ports : List (String × Nat)          -- (name, numeric target) snapshot of the service ports
+deriving DecidableEq, Repr, Inhabited
+
+structure Secret where
+  key : String
+  kind : String
+  version : Nat
+deriving DecidableEq, Repr, Inhabited
+
+structure Pod where
+  key : String
+  ip : String
+  labels : List (String × String)
+  term : Bool
+deriving DecidableEq, Repr, Inhabited
+
+structure World where
+  ings : List Ingress := []
+  svcs : List Service := []
+  eps : List Endpoints := []
+  secs : List Secret := []
+  clss : List (String × String) := []            -- name ↦ spec.controller
+  pods : List Pod := []
+  cm : Option (List (String × String)) := none   -- data of the global ConfigMap
+deriving Repr, Inhabited
+
+def ourController : String := "haproxy-ingress.github.io/controller"
+def ourClass : String := "haproxy"
+def defaultHost : String := "<default>"
+
+def World.findIng (w : World) (k : String) : Option Ingress := w.ings.find? (·.key = k)
+def World.findSvc (w : World) (k : String) : Option Service := w.svcs.find? (·.key = k)
+def World.findEp (w : World) (k : String) : Option Endpoints := w.eps.find? (·.key = k)
+def World.findSec (w : World) (k : String) : Option Secret := w.secs.find? (·.key = k)
+def World.findCls (w : World) (k : String) : Option String := (w.clss.find? (·.1 = k)).map (·.2)
+def World.findPod (w : World) (k : String) : Option Pod := w.pods.find? (·.key = k)
+
+def lookupKV (l : List (String × String)) (k : String) : Option String := (l.find? (·.1 = k)).map (·.2)
+
+/-- `drain-support` of the global config (mapper `.Bool()`) -/
+def World.drain (w : World) : Bool :=
+  match w.cm with
+  | some d => lookupKV d "drain-support" == some "true"
+  | none => false
+
+/-- `IsValidIngress` with `--ingress-class=haproxy`, no `--watch-ingress-without-class`, no
+`--ingress-class-precedence` -/
+def World.valid (w : World) (i : Ingress) : Bool :=
+  match i.classAnn with
+  | some a => a == ourClass
+  | none =>
+    match i.className with
+    | some c => w.findCls c == some ourController
+    | none => false
+
+def ingLE (a b : Ingress) : Bool :=
+  a.created < b.created || (a.created == b.created && !(decide (b.key < a.key)))
+
+/-- `GetIngressList` + `sortIngress` -/
+def World.validSorted (w : World) : List Ingress := (w.ings.filter w.valid).mergeSort ingLE
+
+/-! ## typed tracker nodes -/
+
+inductive Kind
+  | ing | cls | cm | svc | ep | sec | pod | tcp | host | back | user | acme
+deriving DecidableEq, Repr, Inhabited
+
+structure Node where
+  kind : Kind
+  name : String
+deriving DecidableEq, Repr, Inhabited
+
+/-- the value of a kubernetes object as read through the cache -/
+inductive ObjVal
+  | svc (s : Option Service)
+  | ep (e : Option Endpoints)
+  | sec (s : Option Secret)
+  | cls (c : Option String)
+  | pod (p : Option Pod)
+  | other
+deriving DecidableEq, Repr, Inhabited
+
+def World.read (w : World) (n : Node) : ObjVal :=
+  match n.kind with
+  | .svc => .svc (w.findSvc n.name)
+  | .ep => .ep (w.findEp n.name)
+  | .sec => .sec (w.findSec n.name)
+  | .cls => .cls (w.findCls n.name)
+  | .pod => .pod (w.findPod n.name)
+  | _ => .other
+
+/-! ## controller state -/
+
+/-- one touch of an item: who declared it (the object that was read), what was done, and the
+objects that were read to do it -/
+structure Touch where
+  ing : Ingress
+  what : String
+  reads : List (Node × ObjVal) := []
+deriving DecidableEq, Repr, Inhabited
+
+structure HPath where
+  path : String
+  mtch : String
+  back : String
+deriving DecidableEq, Repr, Inhabited
+
+structure Host where
+  name : String
+  paths : List HPath := []
+  trace : List Touch := []
+deriving DecidableEq, Repr, Inhabited
+
+structure Back where
+  id : String
+  trace : List Touch := []
+deriving DecidableEq, Repr, Inhabited
+
+structure St where
+  tr : Tr Node := []
+  hosts : List Host := []
+  backs : List Back := []
+deriving Repr, Inhabited
+
+def St.trackE (st : St) (a b : Node) : St := { st with tr := track a b st.tr }
+
+def St.findHost (st : St) (h : String) : Option Host := st.hosts.find? (·.name = h)
+def St.hostLive (st : St) (h : String) : Bool := (st.findHost h).isSome
+def St.hostHasPath (st : St) (h path mtch : String) : Bool :=
+  (st.findHost h).any fun x => x.paths.any fun p => p.path = path ∧ p.mtch = mtch
+def St.findBack (st : St) (id : String) : Option Back := st.backs.find? (·.id = id)
+def St.backLive (st : St) (id : String) : Bool := (st.findBack id).isSome
+
+def updHost (f : Host → Host) (h : String) : List Host → List Host
+  | [] => [f { name := h }]
+  | x :: l => if x.name = h then f x :: l else x :: updHost f h l
+
+def updBack (f : Back → Back) (id : String) : List Back → List Back
+  | [] => [f { id := id }]
+  | x :: l => if x.id = id then f x :: l else x :: updBack f id l
+
+/-- `Hosts().AcquireHost` -/
+def St.acquireHost (st : St) (h : String) : St :=
+  { st with hosts := updHost id h st.hosts }
+def St.touchHost (st : St) (h : String) (t : Touch) : St :=
+  { st with hosts := updHost (fun x => { x with trace := x.trace ++ [t] }) h st.hosts }
+def St.addHostPath (st : St) (h : String) (p : HPath) : St :=
+  { st with hosts := updHost (fun x => { x with paths := x.paths ++ [p] }) h st.hosts }
+/-- `Backends().AcquireBackend` + the touch -/
+def St.touchBack (st : St) (id : String) (t : Touch) : St :=
+  { st with backs := updBack (fun x => { x with trace := x.trace ++ [t] }) id st.backs }
+
+/-! ## one ingress, flattened into declarations (processing order of `syncIngressHTTP`) -/
+
+inductive DK
+  | defBack (svc port : String)     -- spec.defaultBackend → addDefaultHostBackend
+  | ruleHost                        -- readIngressClass + addHost of one rule
+  | path (p : PathDecl)             -- one path of the rule
+  | tlsHost (secret : String)       -- one host of one tls block: addHost + addTLS
+deriving DecidableEq, Repr, Inhabited
+
+structure Decl where
+  ing : Ingress
+  host : String
+  k : DK
+deriving DecidableEq, Repr, Inhabited
+
+def normHost (h : String) : String := if h = "" then defaultHost else h
+
+def declsOf (i : Ingress) : List Decl :=
+  (match i.defBackend with
+    | some (s, p) => [{ ing := i, host := defaultHost, k := .defBack s p }]
+    | none => [])
+  ++ i.rules.flatMap (fun r =>
+      { ing := i, host := normHost r.host, k := .ruleHost } ::
+        r.paths.map fun p => { ing := i, host := normHost r.host, k := .path p })
+  ++ i.tls.flatMap (fun t => t.hosts.map fun h => { ing := i, host := h, k := .tlsHost t.secret })
+
+def atoi (s : String) : Nat :=
+  if s.isEmpty then 0 else if s.all Char.isDigit then s.toNat! else 0
+
+/-- `backendOf` of the world + `readServiceNamePort`: the port text the converter sees -/
+def ingPort (p : String) : String :=
+  let n := atoi p
+  if n > 0 then toString n else if p = "" then "0" else p
+
+/-- `convutils.FindServicePort` -/
+def findServicePort (s : Service) (port : String) : Option SvcPort :=
+  match s.ports.find? (fun p => p.name = port ∨ p.target = port) with
+  | some p => some p
+  | none =>
+    if port.isEmpty ∨ ¬ port.all Char.isDigit then none
+    else s.ports.find? (fun p => p.port = port.toNat!)
+
+inductive Resolve
+  | noSvc
+  | noPort (s : Service)
+  | ok (s : Service) (target : String)
+deriving Repr
+
+def resolve (w : World) (ns svc port : String) : Resolve :=
+  match w.findSvc (ns ++ "/" ++ svc) with
+  | none => .noSvc
+  | some s =>
+    match findServicePort s (ingPort port) with
+    | none => .noPort s
+    | some p => .ok s p.target
+
+def backID (ns svc target : String) : String := ns ++ "_" ++ svc ++ "_" ++ target
+
+def matchOf (ptype : String) : String :=
+  if ptype = "Exact" then "exact" else if ptype = "Prefix" then "prefix" else "begin"
+
+/-- `GetTLSSecretPath` name resolution (`buildResourceName`, cross-namespace disabled) -/
+def secretKey (ns secret : String) : Option String :=
+  match secret.splitOn "/" with
+  | [n] => some (ns ++ "/" ++ n)
+  | [a, n] => if a = "" then some (ns ++ "/" ++ n) else if a = ns then some (a ++ "/" ++ n) else none
+  | _ => none
+
+/-- `addEndpoints` in drain-support mode: `GetTerminatingPods` tracks every pod matched by the
+service selector (`app=<service name>`) -/
+def trackPods (w : World) (svcName id : String) (st : St) : St :=
+  if w.drain then
+    (w.pods.filter fun p => lookupKV p.labels "app" == some svcName).foldl
+      (fun st p => st.trackE ⟨.back, id⟩ ⟨.pod, p.key⟩) st
+  else st
+
+def podReads (w : World) (svcName : String) : List (Node × ObjVal) :=
+  if w.drain then
+    (w.pods.filter fun p => lookupKV p.labels "app" == some svcName).map
+      fun p => (⟨.pod, p.key⟩, .pod (some p))
+  else []
+
+/-- `addBackendWithClass` after the duplicate check: tracking of service/endpoints → host, the
+service and port resolution, `AcquireBackend`, ingress → backend. Returns the new state, the
+reads and (on success) the backend id. -/
+def addBackend (w : World) (d : Decl) (svc port : String) (st : St) :
+    St × List (Node × ObjVal) × Option String :=
+  let hN : Node := ⟨.host, d.host⟩
+  let sk := d.ing.ns ++ "/" ++ svc
+  let st := (st.trackE ⟨.svc, sk⟩ hN).trackE ⟨.ep, sk⟩ hN
+  match resolve w d.ing.ns svc port with
+  | .noSvc => (st, [(⟨.svc, sk⟩, .svc none)], none)
+  | .noPort s => (st, [(⟨.svc, sk⟩, .svc (some s))], none)
+  | .ok s target =>
+    let id := backID d.ing.ns svc target
+    let st := st.trackE ⟨.ing, d.ing.key⟩ ⟨.back, id⟩
+    let st := trackPods w svc id st
+    (st, [(⟨.svc, sk⟩, .svc (some s)), (⟨.ep, sk⟩, .ep (w.findEp sk))] ++ podReads w svc, some id)
+
+/-- one declaration of `syncIngressHTTP` -/
+def procDecl (w : World) (st : St) (d : Decl) : St :=
+  let iN : Node := ⟨.ing, d.ing.key⟩
+  let hN : Node := ⟨.host, d.host⟩
+  match d.k with
+  | .ruleHost =>
+    match d.ing.className with
+    | some c =>
+      (((st.trackE ⟨.cls, c⟩ iN).acquireHost d.host).trackE iN hN).touchHost d.host
+        { ing := d.ing, what := "host", reads := [(⟨.cls, c⟩, .cls (w.findCls c))] }
+    | none => ((st.acquireHost d.host).trackE iN hN).touchHost d.host { ing := d.ing, what := "host" }
+  | .tlsHost secret =>
+    let st := (st.acquireHost d.host).trackE iN hN
+    if secret = "" then st.touchHost d.host { ing := d.ing, what := "tls-default" }
+    else
+      match secretKey d.ing.ns secret with
+      | none => st.touchHost d.host { ing := d.ing, what := "tls-badname:" ++ secret }
+      | some k =>
+        (st.trackE iN ⟨.sec, k⟩).touchHost d.host
+          { ing := d.ing, what := "tls:" ++ k, reads := [(⟨.sec, k⟩, .sec (w.findSec k))] }
+  | .path p =>
+    let uri := if p.path = "" then "/" else p.path
+    let m := matchOf p.ptype
+    if st.hostHasPath d.host uri m then
+      -- "skipping redeclared path": nothing is tracked
+      st.touchHost d.host { ing := d.ing, what := "skip:" ++ uri ++ ":" ++ m }
+    else
+      match addBackend w d p.svc p.port st with
+      | (st, reads, none) =>
+        st.touchHost d.host { ing := d.ing, what := "nobackend:" ++ uri ++ ":" ++ m, reads := reads }
+      | (st, reads, some id) =>
+        ((st.touchBack id { ing := d.ing, what := "path:" ++ d.host ++ uri ++ ":" ++ m, reads := reads }).addHostPath
+            d.host ⟨uri, m, id⟩).touchHost d.host
+          { ing := d.ing, what := "path:" ++ uri ++ ":" ++ m ++ ":" ++ id, reads := reads }
+  | .defBack svc port =>
+    if st.hostHasPath defaultHost "/" "begin" then
+      -- the loser still tracks the host (a failed default backend leaves no touch: the host content
+      -- does not depend on it; what it read is tracked)
+      st.trackE iN hN
+    else
+      match addBackend w d svc port st with
+      | (st, _, none) => st.trackE iN ⟨.svc, d.ing.ns ++ "/" ++ svc⟩
+      | (st, reads, some id) =>
+        ((((st.touchBack id { ing := d.ing, what := "path:" ++ defaultHost ++ "/:begin", reads := reads }).acquireHost
+            defaultHost).trackE iN hN).addHostPath defaultHost ⟨"/", "begin", id⟩).touchHost defaultHost
+          { ing := d.ing, what := "def:" ++ id, reads := reads }
+
+/-- `syncIngress` -/
+def syncIngress (w : World) (st : St) (i : Ingress) : St := (declsOf i).foldl (procDecl w) st
+
+/-- `syncFull` after `ClearLinks` + `haproxy.Clear` -/
+def syncFull (w : World) : St := w.validSorted.foldl (syncIngress w) {}
+
+/-! ## the batch of changes and the partial sync -/
+
+structure Batch where
+  links : List Node := []
+  add : List Ingress := []       -- objects carried by the events
+  upd : List Ingress := []
+  del : List String := []
+  full : Bool := false           -- NeedFullSync of the handlers (IngressClass events)
+  cmNew : Option (List (String × String)) := none
+deriving Repr, Inhabited
+
+/-- `converter.findBackend` of trackAddedIngress: the LIVE backend a declaration resolves to -/
+def findLiveBack (w : World) (st : St) (ns svc port : String) : Option String :=
+  match resolve w ns svc port with
+  | .ok _ target => if st.backLive (backID ns svc target) then some (backID ns svc target) else none
+  | _ => none
+
+/-- `trackAddedIngress` for one added / updated object -/
+def preTrackIng (w : World) (st : St) (i : Ingress) : St :=
+  let iN : Node := ⟨.ing, i.key⟩
+  let st := match i.defBackend with
+    | some (s, p) =>
+      match findLiveBack w st i.ns s p with
+      | some id => st.trackE iN ⟨.back, id⟩
+      | none => st
+    | none => st
+  let st := if i.defBackend.isSome && st.hostLive defaultHost then st.trackE iN ⟨.host, defaultHost⟩ else st
+  let st := i.tls.foldl (fun st t => t.hosts.foldl (fun st h => st.trackE iN ⟨.host, h⟩) st) st
+  i.rules.foldl (fun st r =>
+    r.paths.foldl (fun st p =>
+      match findLiveBack w st i.ns p.svc p.port with
+      | some id => st.trackE iN ⟨.back, id⟩
+      | none => st) (st.trackE iN ⟨.host, normHost r.host⟩)) st
+
+def preTrack (w : World) (b : Batch) (st : St) : St := (b.add ++ b.upd).foldl (preTrackIng w) st
+
+def namesOf (k : Kind) (l : List Node) : List String := (l.filter (·.kind = k)).map (·.name)
+
+/-- keys of the ingresses `syncPartial` reads again: dirty − IngressesDel + IngressesUpd + IngressesAdd -/
+def resyncKeys (b : Batch) (dirtyIngs : List String) : List String :=
+  (dirtyIngs.filter (· ∉ b.del)) ++ b.upd.map (·.key) ++ b.add.map (·.key)
+
+/-- the state after pre-tracking and removal of the dirty items -/
+def afterRemove (w : World) (b : Batch) (st : St) : St × List Node :=
+  let st1 := preTrack w b st
+  let (out, tr') := queryLinks st1.tr b.links true
+  ({ tr := tr', hosts := st1.hosts.filter (fun h => h.name ∉ namesOf .host out),
+     backs := st1.backs.filter (fun x => x.id ∉ namesOf .back out) }, out)
+
+/-- `syncPartial`: the re-synced list is read again from the cache (exists ∧ valid) and sorted -/
+def syncPartial (w : World) (b : Batch) (st : St) : St :=
+  let (st2, out) := afterRemove w b st
+  let keys := resyncKeys b (namesOf .ing out)
+  (w.validSorted.filter (·.key ∈ keys)).foldl (syncIngress w) st2
+
+/-- one reconciliation on the cluster state `w` (the state at the time of the sync) -/
+def step (w : World) (b : Batch) (st : St) : St :=
+  if b.full then syncFull w else syncPartial w b st
+
+/-! ## side conditions (decidable on a run) -/
+
+/-- backends that survive the removal (not dirty) and are touched by a re-synced ingress:
+a *late reference* (root cause of finding 1) -/
+def lateBacks (w : World) (b : Batch) (st : St) : List String :=
+  let st2 := (afterRemove w b st).1
+  let st3 := syncPartial w b st
+  (st2.backs.filter fun x => (st3.findBack x.id).any fun y => y.trace.length ≠ x.trace.length).map (·.id)
+
+/-- the same for hosts -/
+def lateHosts (w : World) (b : Batch) (st : St) : List String :=
+  let st2 := (afterRemove w b st).1
+  let st3 := syncPartial w b st
+  (st2.hosts.filter fun x => (st3.findHost x.name).any fun y => y.trace.length ≠ x.trace.length).map (·.name)
+
+/-- `NoLateRef`: no re-synced ingress touches a surviving item -/
+def noLateRef (w : World) (b : Batch) (st : St) : Bool :=
+  (lateBacks w b st).isEmpty && (lateHosts w b st).isEmpty
+
+/-! ## watchers: operations on the cluster and the batch they produce -/
+
+inductive Op
+  | ingSet (i : Ingress)
+  | ingDel (key : String)
+  | svcSet (s : Service)
+  | svcDel (key : String)
+  | epSet (key : String) (ready notReady : List (String × String))
+  | epDel (key : String)
+  | secSet (s : Secret)
+  | secDel (key : String)
+  | clsSet (name ctrl : String)
+  | clsDel (name : String)
+  | cmSet (data : List (String × String))
+  | podSet (p : Pod)
+  | podDel (key : String)
+deriving Repr, Inhabited
+
+def addLink (b : Batch) (n : Node) : Batch := if n ∈ b.links then b else { b with links := b.links ++ [n] }
+
+def replaceBy {β : Type} (key : β → String) (x : β) : List β → List β
+  | [] => [x]
+  | y :: l => if key y = key x then x :: l else y :: replaceBy key x l
+
+/-- numeric target of a service port in the world's Endpoints objects (`NamedTargets`) -/
+def numericTarget (t : String) : Nat :=
+  let n := atoi t
+  if n > 0 then n else if t = "web" then 8080 else if t = "adm" then 9090 else if t = "alt" then 8081 else 0
+
+/-- apply one operation: the new cluster and the events as the real predicates/handlers see them
+(validity is evaluated on the cluster AFTER the operation, like the informer cache) -/
+def applyOp (wb : World × Batch) (op : Op) : World × Batch :=
+  let (w, b) := wb
+  match op with
+  | .ingSet i0 =>
+    match w.findIng i0.key with
+    | none =>
+      let w' := { w with ings := w.ings ++ [i0] }
+      if w'.valid i0 then (w', { addLink b ⟨.ing, i0.key⟩ with add := b.add ++ [i0] }) else (w', b)
+    | some old =>
+      let i := { i0 with created := old.created }
+      let w' := { w with ings := replaceBy Ingress.key i w.ings }
+      let ov := w'.valid old
+      let nv := w'.valid i
+      if ov || nv then
+        let b := addLink b ⟨.ing, i.key⟩
+        if ov && nv then (w', { b with upd := b.upd ++ [i] })
+        else if nv then (w', { b with add := b.add ++ [i] })
+        else (w', { b with del := b.del ++ [old.key] })
+      else (w', b)
+  | .ingDel k =>
+    match w.findIng k with
+    | none => (w, b)
+    | some old =>
+      let w' := { w with ings := w.ings.filter (·.key ≠ k) }
+      if w'.valid old then (w', { addLink b ⟨.ing, k⟩ with del := b.del ++ [k] }) else (w', b)
+  | .svcSet s => ({ w with svcs := replaceBy Service.key s w.svcs }, addLink b ⟨.svc, s.key⟩)
+  | .svcDel k =>
+    match w.findSvc k with
+    | none => (w, b)
+    | some _ =>
+      let b := addLink b ⟨.svc, k⟩
+      let b := if (w.findEp k).isSome then addLink b ⟨.ep, k⟩ else b
+      ({ w with svcs := w.svcs.filter (·.key ≠ k), eps := w.eps.filter (·.key ≠ k) }, b)
+  | .epSet k ready notReady =>
+    let ports := match w.findSvc k with
+      | some s => s.ports.map fun p => (p.name, numericTarget p.target)
+      | none => []
+    let e : Endpoints := if ready.isEmpty && notReady.isEmpty then ⟨k, [], [], []⟩ else ⟨k, ready, notReady, ports⟩
+    let w' := { w with eps := replaceBy Endpoints.key e w.eps }
+    match w.findEp k with
+    | none => (w', addLink b ⟨.ep, k⟩)
+    | some old => if old = e then (w', b) else (w', addLink b ⟨.ep, k⟩)
+  | .epDel k =>
+    match w.findEp k with
+    | none => (w, b)
+    | some _ => ({ w with eps := w.eps.filter (·.key ≠ k) }, addLink b ⟨.ep, k⟩)
+  | .secSet s => ({ w with secs := replaceBy Secret.key s w.secs }, addLink b ⟨.sec, s.key⟩)
+  | .secDel k =>
+    match w.findSec k with
+    | none => (w, b)
+    | some _ => ({ w with secs := w.secs.filter (·.key ≠ k) }, addLink b ⟨.sec, k⟩)
+  | .clsSet n c =>
+    let w' := { w with clss := replaceBy (·.1) (n, c) w.clss }
+    let oldValid := w.findCls n == some ourController
+    let newValid := c == ourController
+    if oldValid || newValid then (w', { addLink b ⟨.cls, n⟩ with full := true }) else (w', b)
+  | .clsDel n =>
+    match w.findCls n with
+    | none => (w, b)
+    | some c =>
+      let w' := { w with clss := w.clss.filter (·.1 ≠ n) }
+      if c == ourController then (w', { addLink b ⟨.cls, n⟩ with full := true }) else (w', b)
+  | .cmSet d =>
+    ({ w with cm := some d }, { addLink b ⟨.cm, "ingress-controller/haproxy-ingress"⟩ with cmNew := some d })
+  | .podSet p =>
+    let w' := { w with pods := replaceBy Pod.key p w.pods }
+    match w.findPod p.key with
+    | none => (w', b)                                         -- create events are filtered
+    | some old => if old.term || p.term then (w', addLink b ⟨.pod, p.key⟩) else (w', b)
+  | .podDel k =>
+    match w.findPod k with
+    | none => (w, b)
+    | some _ => ({ w with pods := w.pods.filter (·.key ≠ k) }, addLink b ⟨.pod, k⟩)
+
+/-- the controller across reconciliations -/
+structure Ctl where
+  st : St := {}
+  first : Bool := true                                 -- the first sync is a full sync (default certificate)
+  cmCur : Option (List (String × String)) := none      -- GlobalConfigMapDataCur
+deriving Repr, Inhabited
+
+/-- does this reconciliation run `syncFull`? (`converters.Sync`: NeedFullSync of the batch, the
+default certificate on the first run, a changed global ConfigMap) -/
+def needFull (c : Ctl) (b : Batch) : Bool :=
+  c.first || b.full || (match b.cmNew with | some n => c.cmCur ≠ some n | none => false)
+
+def reconcile (w : World) (b : Batch) (c : Ctl) : Ctl :=
+  { st := step w { b with full := needFull c b } c.st, first := false,
+    cmCur := match b.cmNew with | some n => some n | none => c.cmCur }
+
+/-- a whole history: batches of operations, one reconciliation after each batch -/
+def runHistory (batches : List (List Op)) : World × Ctl :=
+  batches.foldl (fun (wc : World × Ctl) ops =>
+    let (w', b) := ops.foldl applyOp (wc.1, {})
+    (w', reconcile w' b wc.2)) ({}, {})
+
 end HapVerif.C01
